@@ -261,6 +261,9 @@ def run(F, ck, tier):
         ck.ob('R13.8', 'full-width:' + owner_, okl, 'state loops run over WIDTH = %s (%d loop(s))' % (w_, len(lb_)) if okl else
               '%s::permute has a state loop of length %s although the state has %s elements: the capacity part of the sponge state is dropped, so challenges depend only on the last absorbed block' % (owner_, [b for b in lb_ if b != str(w_)], w_),
               '%s:%d' % (fns_['permute'].file, fns_['permute'].line))
+    from . import c14 as _c14
+    _c14.lost_carry(F, ck, 'R13.9', 1)
+    ck.decided += ['no discarded carry in the u160 accumulator of the Poseidon fast partial layer (R13.9: wrapping_* discharged by intervals, overflowing_* flags read)']
     ck.decided += ['sponge discipline: overwrite at 0 in RATE chunks, permutation per chunk, outputs from the rate part, native/circuit hash skeleton agreement, compression layout, container rate/capacity']
     ck.undecided += ['equality of the optimised Poseidon permutation (fast partial rounds, frequency-domain MDS, u160 reduction, SIMD) with the textbook permutation on every input - numeric, not decided',
                      'collision resistance / random-oracle behaviour']
